@@ -120,6 +120,21 @@ func ruleMergeWhoMayCancel(c *Ctx, r *R) {
 			if fa, ok := ld.X.(*ssa.FieldAddr); ok && isNamedType(fa.X.Type(), "stream", "mergeStream") && fieldName(fa.X.Type(), fa.Field) == "cancel" {
 				return true
 			}
+			// a field of a helper struct built in Merge that was given Merge's cancel function (closer.cancel)
+			if fa, ok := ld.X.(*ssa.FieldAddr); ok {
+				fld := fieldName(fa.X.Type(), fa.Field)
+				holds := false
+				instrs(bi.fn, func(_ *ssa.BasicBlock, _ int, in ssa.Instruction) {
+					if st, ok := in.(*ssa.Store); ok {
+						if fa2, ok := st.Addr.(*ssa.FieldAddr); ok && fieldName(fa2.X.Type(), fa2.Field) == fld && types.Identical(origType(derefType(fa2.X.Type())), origType(derefType(fa.X.Type()))) && resolveVal(st.Val) == bi.cancel {
+							holds = true
+						}
+					}
+				})
+				if holds {
+					return true
+				}
+			}
 			if cell := cellOf(ld.X); cell != nil && rootFn(cell.Parent()) == bi.fn {
 				for _, st := range storesTo(cell) {
 					if st.Val == bi.cancel {
@@ -132,7 +147,7 @@ func ruleMergeWhoMayCancel(c *Ctx, r *R) {
 	}
 	for _, fn := range c.funcsOfPkg("stream") {
 		root := rootFn(fn)
-		if root != bi.fn && !(root.Signature.Recv() != nil && isNamedType(root.Signature.Recv().Type(), "stream", "mergeStream")) {
+		if root != bi.fn && !worker[fn] && !(root.Signature.Recv() != nil && isNamedType(root.Signature.Recv().Type(), "stream", "mergeStream")) {
 			continue
 		}
 		instrs(fn, func(b *ssa.BasicBlock, i int, in ssa.Instruction) {
